@@ -20,7 +20,7 @@ From AV Require Import Base.Bytes Base.Outcome Hash.HashModel Tree.Heap Tree.Ops
 From AV Require Import Tree.Index Tree.IndexProofsAssoc Tree.IndexProofs Tree.Refs Tree.IndexProofsSetName Tree.IndexProofsBridge Tree.IndexProofsTiny.
 From AV Require Import Spec.SpecReal Tree.CheckFn Tree.IndexProofsTablesReal Tree.IndexProofsClosed Tree.IndexProofsTinyMove.
 From AV Require Import Tree.RefsAll Tree.IndexProofsNodeInv Tree.IndexProofsAll Tree.IndexProofsTinyCross.
-From AV Require Import Tree.SortProofsHeap Tree.SortProofsNames Tree.IndexProofsSort Tree.Copy Tree.IndexProofsDup.
+From AV Require Import Tree.SortProofsHeap Tree.SortProofsNames Tree.IndexProofsSort Tree.Copy Tree.IndexProofsDup Tree.IndexProofsRemoveOp.
 Import Tiny.
 Open Scope list_scope.
 Open Scope N_scope.
@@ -174,6 +174,9 @@ Theorem C04_sort :
   TreeFacts w /\ Inv04 T check_fn w /\ Inv05 T w -> kept T w w' -> NameFirst T w ->
   TreeFacts w' /\ Inv04 T check_fn w' /\ Inv05 T w'.
 Proof. exact sort_j5. Qed.
+
+Theorem C04_sort_name_first : forall (T : tables) (w : world), NoLate T w -> NameFirst T w.
+Proof. exact nolate_namefirst. Qed.
 
 Theorem C04_duplicate :
   forall (T : tables) (tab_el tab_en : nametab) (check_fn : N -> list N -> res bool) (LATEST : N)
